@@ -6,6 +6,9 @@ using namespace coloquinte;
 #ifndef NREG
 #define NREG 2
 #endif
+#ifndef YCH
+#define YCH 2
+#endif
 extern "C" void harness() {
   int binSize = __verif_choice(2) ? 7 : 4;
   int nreg = 1 + __verif_choice(NREG);
@@ -13,14 +16,14 @@ extern "C" void harness() {
   long long totalArea = 0;
   for (int r = 0; r < nreg; ++r) {
     int a = __verif_nondet_int(-30, 30); int b = __verif_nondet_int(-30, 30);
-    int c = 8 * __verif_choice(2); int d = c + 8;          // rows have a fixed height; x extents are symbolic (keeps areas linear)
+    int c = 8 * __verif_choice(YCH); int d = c + 8;        // rows have a fixed height (YCH 3: a vertical gap is possible); x extents are symbolic (keeps areas linear)
     __verif_assume(a < b && c < d);
     for (size_t q = 0; q < regs.size(); ++q) __verif_assume(b <= regs[q].minX || regs[q].maxX <= a || d <= regs[q].minY || regs[q].maxY <= c);   // rows are disjoint
     regs.push_back(Rectangle(a, b, c, d)); totalArea += (long long)(b - a) * (d - c);
   }
   int mnx = regs[0].minX, mxx = regs[0].maxX, mny = regs[0].minY, mxy = regs[0].maxY;
   for (int r = 1; r < nreg; ++r) { mnx = std::min(mnx, regs[r].minX); mxx = std::max(mxx, regs[r].maxX); mny = std::min(mny, regs[r].minY); mxy = std::max(mxy, regs[r].maxY); }
-  __verif_assume(mxx - mnx <= 3 * binSize + binSize - 1 && mxy - mny <= 2 * binSize + binSize - 1);   // at most 3 x 2 bins
+  __verif_assume(mxx - mnx <= 3 * binSize + binSize - 1 && mxy - mny <= YCH * binSize + binSize - 1);   // at most 3 x YCH bins
   DensityGrid g(binSize, regs);
   __verif_cover("grid built");
   VASSERT(g.nbBinsX() >= 1 && g.nbBinsY() >= 1, "at least one bin");
